@@ -90,9 +90,9 @@ DET1_ACCEPTED = {
 }
 
 spec("C01", "Docstring round trip",
-     [L.rule_type_ladder, W.rule_rejoin_uniform, L.rule_quote_pair, TB.rule_table_style, N.rule_null2, H.rule_invented_default, H.rule_empty_hole, L.rule_quote_types, coord("rule_coord_docstring", "docstring_parsers.parse_docstring", "emit.docstring"),
+     [L.rule_scan_end, L.rule_type_ladder, W.rule_rejoin_uniform, L.rule_quote_pair, TB.rule_table_style, N.rule_null2, H.rule_invented_default, H.rule_empty_hole, L.rule_quote_types, coord("rule_coord_docstring", "docstring_parsers.parse_docstring", "emit.docstring"),
       det3("docstring", "emit.docstring", "docstring_parsers.parse_docstring"), pit("docstring", "emit.docstring", "docstring_parsers.parse_docstring")],
-     "Necessary conditions decided on the source: (TYPE-LADDER) every class of default text (integers signed or not, floats in every notation, booleans, quoted and unquoted strings - also those that look like numbers -, expressions) comes out of the reader's conversion ladder with its own Python type and no exception escapes; (REJOIN-UNIFORM) when word-wrapped prose is read back, the lines of a description are re-joined the same way at every line boundary - no decision on what a line contains, no join without a blank - so the prose comes back word for word; (QUOTE-PAIR) what the writer does to a string default when it quotes it the reader's unquote undoes, quoting its own result changes nothing, and unquote leaves a text that is not a quoted pair alone - followed on representatives of the kinds of string a default can be (a word, inner double quote, apostrophe, inner blank, padded, blank, line break, digits); (INVENTED-DEFAULT) on the docstring reader's path a default is only ever taken from the text: every call of a function "
+     "Necessary conditions decided on the source: (SCAN-END) the reader's scan for the end of an announced value, followed character by character on sample texts (a number, a decimal, a word, a quoted string with a full stop in it, bracketed values, an expression - with and without prose behind them), hands the conversion ladder the value: not cut at a dot inside quotes or a decimal, not running on into the prose behind a bracketed value; (TYPE-LADDER) every class of default text (integers signed or not, floats in every notation, booleans, quoted and unquoted strings - also those that look like numbers -, expressions) comes out of the reader's conversion ladder with its own Python type and no exception escapes; (REJOIN-UNIFORM) when word-wrapped prose is read back, the lines of a description are re-joined the same way at every line boundary - no decision on what a line contains, no join without a blank - so the prose comes back word for word; (QUOTE-PAIR) what the writer does to a string default when it quotes it the reader's unquote undoes, quoting its own result changes nothing, and unquote leaves a text that is not a quoted pair alone - followed on representatives of the kinds of string a default can be (a word, inner double quote, apostrophe, inner blank, padded, blank, line break, digits); (INVENTED-DEFAULT) on the docstring reader's path a default is only ever taken from the text: every call of a function "
      "that writes the IR key 'default' with something other than what the default reader extracted, when one of its flag parameters is true, passes that flag as a constant "
      "false; (EMPTY-HOLE) the explicit default '' is written as a value the reader recognises, never as the empty text; (QUOTE-TYPES) the quoting helper, applied to every default whose "
      "declared type mentions str, raises for no kind of default value (str, int, float, bool, None); (TABLE-style) per docstring style, every section header / line marker the emitter writes contains a "
@@ -158,10 +158,10 @@ spec("C07", "Parsing faithful to Python's view",
      not_decided="that the order is the source order (documented-first is value-level), precedence of documented information, prose attribution, the inspect path")
 
 spec("C08", "Fixed point after one pass",
-     [H.rule_default_kind, L.rule_quote_pair, TB.rule_table_announce, H.rule_empty_hole, scoped(FA.rule_falsy, "falsy_defaults", "defaults_utils.set_default_doc", "defaults_utils.extract_default", "emitter_utils.interpolate_defaults"),
+     [L.rule_scan_end, H.rule_default_kind, L.rule_quote_pair, TB.rule_table_announce, H.rule_empty_hole, scoped(FA.rule_falsy, "falsy_defaults", "defaults_utils.set_default_doc", "defaults_utils.extract_default", "emitter_utils.interpolate_defaults"),
       coord("rule_coord_defaults", "defaults_utils.extract_default", "defaults_utils.set_default_doc"), named(FW.rule_fwd, "rule_fwd", accepted=FWD_ACCEPTED), O.rule_order_merge, det3("all", "emit.docstring", "emit.class_", "emit.function", "emit.argparse_function", "parse.docstring", "parse.class_", "parse.function", "parse.argparse_ast"), pit("all", "emit.docstring", "emit.class_", "emit.function", "emit.argparse_function", "parse.docstring", "parse.class_", "parse.function", "parse.argparse_ast"),
       C.rule_call_dispatch],
-     "Necessary condition: (DEFAULT-KIND) an operation only a str has (a str method, len(), indexing) is applied to a read of the IR key 'default' only under evidence that this default is a str (isinstance, a package predicate that tests it, equality with a str constant): defaults are also ints, floats, booleans and None; (QUOTE-PAIR) what the writer does to a string default when it quotes it the reader's unquote undoes, quoting its own result changes nothing, and unquote leaves a text that is not a quoted pair alone - followed on representatives of the kinds of string a default can be (a word, inner double quote, apostrophe, inner blank, padded, blank, line break, digits); (TABLE-announce b) each writer of the default sentence recognises its own sentence as 'already present' - either by calling the reader "
+     "Necessary condition: (SCAN-END) the reader's scan for the end of an announced value, followed character by character on sample texts (a number, a decimal, a word, a quoted string with a full stop in it, bracketed values, an expression - with and without prose behind them), hands the conversion ladder the value: not cut at a dot inside quotes or a decimal, not running on into the prose behind a bracketed value; (DEFAULT-KIND) an operation only a str has (a str method, len(), indexing) is applied to a read of the IR key 'default' only under evidence that this default is a str (isinstance, a package predicate that tests it, equality with a str constant): defaults are also ints, floats, booleans and None; (QUOTE-PAIR) what the writer does to a string default when it quotes it the reader's unquote undoes, quoting its own result changes nothing, and unquote leaves a text that is not a quoted pair alone - followed on representatives of the kinds of string a default can be (a word, inner double quote, apostrophe, inner blank, padded, blank, line break, digits); (TABLE-announce b) each writer of the default sentence recognises its own sentence as 'already present' - either by calling the reader "
      "itself or by a substring of the written phrase - otherwise one more sentence is appended on every pass; (EMPTY-HOLE) the value written behind the announcement cannot be the empty text for the explicit default '': a bare "
      "announcement is not recognised by the reader, so the sentence would be appended again on every pass. (COORD) no position measured on a transformed copy of the prose (strip / casefold / replace change lengths; also through a search helper given a normalising callable) is used to cut the original prose. (FWD) an option the caller was given (word_wrap, emit_default_doc, docstring_format, ...) is forwarded to every callee that has the same option with a default - directly, through a partial or a wrapper; the confirmed exceptions are listed with reasons (props.FWD_ACCEPTED) or lie on the live-object path. (DET-3, scoped) no function on this property's code path writes state that outlives the call (module globals/objects, function or class attributes, mutated mutable defaults, memoised mutable results): the conversion is not history-dependent. (LATE-BIND / STALE-CAPTURE / SHARED-DEFAULT / STR-MEMBER, scoped) on this property's code path no closure created per iteration reads its loop variable late, no partial / lambda default captures a name that is rebound before the call, no mutable default is mutated, returned or stored, and no membership test is made against an identifier-like string (a tuple that lost its comma). (ORDER-merge) as under C07.",
      floors={"TABLE-announce": 3, "EMPTY-HOLE": 1},
@@ -243,10 +243,10 @@ spec("C16", "Bodies carried verbatim",
      not_decided="positional special cases of body splicing (slices of the runtime body list), trailing-return handling")
 
 spec("C17", "Defaults through prose",
-     [TB.rule_table_announce, L.rule_type_ladder, H.rule_empty_hole, scoped(FA.rule_falsy, "falsy_defaults", "defaults_utils.set_default_doc", "defaults_utils.extract_default", "emitter_utils.interpolate_defaults"),
+     [L.rule_scan_end, TB.rule_table_announce, L.rule_type_ladder, H.rule_empty_hole, scoped(FA.rule_falsy, "falsy_defaults", "defaults_utils.set_default_doc", "defaults_utils.extract_default", "emitter_utils.interpolate_defaults"),
       coord("rule_coord", "defaults_utils.extract_default", "defaults_utils.set_default_doc"),
       det3("defaults", "defaults_utils.set_default_doc", "defaults_utils.extract_default", "emitter_utils.interpolate_defaults"), pit("defaults", "defaults_utils.set_default_doc", "defaults_utils.extract_default", "emitter_utils.interpolate_defaults")],
-     "Necessary conditions: (TYPE-LADDER) the ladder of tests and conversions that turns the announced text into a value is run abstractly over the finite classes of "
+     "Necessary conditions: (SCAN-END) the reader's scan for the end of an announced value, followed character by character on sample texts (a number, a decimal, a word, a quoted string with a full stop in it, bracketed values, an expression - with and without prose behind them), hands the conversion ladder the value: not cut at a dot inside quotes or a decimal, not running on into the prose behind a bracketed value; (TYPE-LADDER) the ladder of tests and conversions that turns the announced text into a value is run abstractly over the finite classes of "
      "default text (unsigned / signed integer, fractional / whole-valued / exponent float, boolean, None, unquoted word, quoted string) crossed with the declared type: "
      "every class comes out with its own Python type (integers stay int, floats stay float, booleans bool, strings str) and no exception escapes; "
      "(EMPTY-HOLE) the value written behind the default announcement cannot be the empty text for the explicit default '' (a may-be-empty analysis of the hole expression through the quoting helper's returns); "
@@ -257,7 +257,7 @@ spec("C17", "Defaults through prose",
      floors={"TABLE-announce": 3, "COORD": 3, "TYPE-LADDER": 8, "EMPTY-HOLE": 1},
      technique="constant folding of the announcement tables, guard analysis of the writer, forward dataflow of string-coordinate provenance with callee return summaries; "
                "finite abstract interpretation of the conversion ladder over classes of literal text (what each str predicate, numeric constructor and literal_eval does on a class is tabulated in the rule)",
-     not_decided="end-of-value scan (where the announced value stops), the arithmetic of the removal offsets themselves, values outside the tabulated classes (character-level)")
+     not_decided="the arithmetic of the removal offsets themselves, values and scan inputs outside the tabulated classes and samples (character-level)")
 
 spec("C18", "Wrapping / line length transparent",
      [T.rule_typeflow, T.rule_wrap_last, W.rule_wrap_breaks, W.rule_wrap_cont, W.rule_rejoin_uniform, W.rule_scan_after_rejoin, coord("rule_coord_defaults", "defaults_utils.extract_default", "defaults_utils.set_default_doc"), det3("emit", "emit.docstring", "emit.class_", "emit.function", "emit.argparse_function"), pit("emit", "emit.docstring", "emit.class_", "emit.function", "emit.argparse_function")],
